@@ -203,6 +203,9 @@ def _worker_task(task):
                 confirmed = nat[0] == "violation" and nat[1] == v["site"].split(":", 1)[0]
             if not confirmed and v.get("model_nondet"):
                 res["stats"]["unrealised_model_choices"] = res["stats"].get("unrealised_model_choices", 0) + 1
+                alt = _alternative_models(h, case, v, eng)
+                if alt is not None:
+                    res["violations"].append(alt)
                 continue            # a candidate that exists only under the unrealised branch of a library model
             res["violations"].append(dict(site=v["site"], known=v["known"], inputs=_jsonable(inputs), case=case,
                                           native=list(nat), confirmed=confirmed))
@@ -258,6 +261,54 @@ def _candidate_replay(h, case, res, tries=12):
             # diversify: prefer different low digits
     except BaseException:
         pass
+
+
+def _alternative_models(h, case, v, eng, tries=48):
+    """The counterexample depends on the branch an over-approximating library model took (rounding-noise direction, tie
+    direction, ...) and this particular model did not reproduce natively. Other models of the same constraint system
+    are tried: one that violates the property natively at the same site is a genuine, confirmed counterexample."""
+    import z3
+    smt = v.get("_smt")
+    if not smt:
+        return None
+    cons, inputs = smt
+    try:
+        cs = z3.Solver()
+        cs.set("timeout", 5000)
+        cs.add(*cons)
+        terms = [t for name, (kind, val) in inputs.items() if kind != "nd" for t in _terms(val)]
+        ints = [t for t in terms if z3.is_int(t)]
+        for i in range(tries):
+            m = None
+            if ints:
+                # spread the candidates: pin one input term to a pseudo-random small value for this try, if possible
+                t = ints[(i * 5 + 1) % len(ints)]
+                cs.push()
+                cs.add(t == (i * 7 + 3) % 10)
+                if cs.check() == z3.sat:
+                    m = cs.model()
+                cs.pop()
+            if m is None:
+                if cs.check() != z3.sat:
+                    return None
+                m = cs.model()
+            eng.inputs = inputs
+            cand = eng.extract_inputs(m)
+            cand.update(case)
+            nat = native_outcome(h, cand)
+            if os.environ.get("PYSYM_TRACE"):
+                print("ALT", i, cand, nat, flush=True)
+            if nat[0] == "violation" and nat[1] == v["site"].split(":", 1)[0]:
+                return dict(site=v["site"], known=None, inputs=_jsonable(cand), case=case, native=list(nat), confirmed=True)
+            block = [t != m.eval(t, model_completion=True) for t in terms]
+            if not block:
+                return None
+            cs.add(z3.Or(*block))
+    except BaseException as ex:
+        if os.environ.get("PYSYM_TRACE"):
+            traceback.print_exc()
+        return None
+    return None
 
 
 def _terms(v):
